@@ -32,7 +32,7 @@ TECHNIQUE = "model-based property testing (Hypothesis): operation sequences vs a
 BUDGET = {"quick": 700, "thorough": 20000}
 SHRINK_SECONDS = {"quick": 40, "thorough": 200}
 RULE = (
-    "case = (problem, operation list over {get, get_fresh, slice, repeat, new}). Non-trivial = the history requests a "
+    "case = (problem, operation list over {get, get_fresh, slice, repeat, new, starved_get, user_product}); problems are explicit (Hermitian / non-Hermitian) or implicit (direct or KPM solver, the latter compared at solver accuracy). Non-trivial = the history requests a "
     "lower order after a higher one on the same computation, requests U or U_inv after H_tilde (intermediates "
     "already consumed), and contains a repeat or a second computation."
 )
